@@ -1141,8 +1141,13 @@ func (r Stack) Delimiter() (delim string) {
 setListDelimiter is a private method called by [Stack.SetDelimiter]
 */
 func (r *stack) setListDelimiter(x any) {
-	sc, _ := r.config()
-	sc.setListDelimiter(assertListDelimiter(x))
+	// text, a rune or nil only; anything
+	// else is no instruction at all.
+	switch x.(type) {
+	case nil, string, rune:
+		sc, _ := r.config()
+		sc.setListDelimiter(assertListDelimiter(x))
+	}
 }
 
 /*
